@@ -2,6 +2,9 @@ package props
 
 import (
 	"encoding/json"
+
+	"github.com/zitadel/saml/pkg/provider/key"
+
 	"fmt"
 	"net/http"
 	"os"
@@ -81,6 +84,13 @@ func c15WorldCfg(cfgName string) *world.World {
 		w.Store.Inject(world.AuthReq{ID: "sess-" + n, AppID: app, ACS: acs + "?m=" + n, Binding: bind, RequestID: "_req-" + n, RelayState: "relay-" + n})
 		w.Store.Complete("sess-"+n, u.ID)
 	}
+	// multi-tenant storage: requests that reach the provider as host b belong to a tenant with its own response signing key,
+	// in which the login name of session 1's user names ANOTHER person
+	w.Store.Tenants = map[string]*world.Tenant{cfg.Issuer(c15HostB): {
+		RespKey: &key.CertificateAndKey{Certificate: world.SPB.DER, Key: world.SPB.RSA},
+		Logins: map[string]*world.User{"user-" + c15Sess[0]: {ID: "uid-k1b-sx", Username: "user-" + c15Sess[0], Email: "mail-k1b-sx@example.com", FullName: "Full k1b-sx",
+			Custom: []world.Custom{{Name: "role-k1b-sx", Format: "urn:fmt:k1b-sx", Values: []string{"val-k1b-sx"}}}}},
+	}}
 	// a session whose login has not completed
 	w.Store.Inject(world.AuthReq{ID: "sess-p8-yy", AppID: "app-b", ACS: "https://sp-b.example/acs/post?m=p8-yy", Binding: msg.BindPost, RequestID: "_req-p8-yy", RelayState: "relay-p8-yy"})
 	return w
@@ -122,12 +132,16 @@ func c15Bodies() []c15Body {
 	aqSameID := func(w *world.World) *http.Request {
 		return msg.SOAPRequest(c15HostB, w.Cfg.AttributePath(), msg.SOAP(msg.AttrQuery(msg.AttrQueryOpts{ID: "_aq-" + c15Sess[0], Issuer: msg.SPB().EntityID, NameID: "user-" + c15Sess[1]})).Render(xt.Style{}))
 	}
+	aqTenantB := func(w *world.World) *http.Request {
+		return msg.SOAPRequest(c15HostB, w.Cfg.AttributePath(), msg.SOAP(msg.AttrQuery(msg.AttrQueryOpts{ID: "_aq-k1b-sx", Issuer: msg.SPB().EntityID, NameID: "user-" + c15Sess[0]})).Render(xt.Style{}))
+	}
 	loSameID := func(w *world.World) *http.Request {
 		return msg.PostForm(c15HostB, w.Cfg.SLOPath(), "SAMLRequest", msg.Logout(msg.LogoutOpts{ID: "_lo-q6-tg", Issuer: msg.SPB().EntityID, NameID: "user-q8-ti"}).Render(xt.Style{}), "relay-q8-ti", nil)
 	}
 	return []c15Body{
 		{"sso-B-with-the-request-id-of-sso-A", []string{"q9-tj", c15HostB, "q0-ta"}, ssoSameID}, // the shared id carries the other body's tag legitimately
 		{"attrquery-S2-with-the-query-id-of-attrquery-S1", []string{c15Sess[1], c15HostB, c15Sess[0]}, aqSameID},
+		{"attrquery-login-name-of-S1-in-tenant-b", []string{"k1b-sx", c15HostB, c15Sess[0]}, aqTenantB}, // the login name carries session 1's tag legitimately
 		{"logout-B-with-the-request-id-of-logout-A", []string{"q8-ti", c15HostB, "q6-tg"}, loSameID},
 		{"sso-A", []string{"q0-ta", c15HostA}, sso(msg.SPA(), c15HostA, "q0-ta", false)},
 		{"sso-B", []string{"q1-tb", c15HostB}, sso(msg.SPB(), c15HostB, "q1-tb", false)},
@@ -155,10 +169,10 @@ var (
 )
 
 type c15Obs struct {
-	Location string // Location header of the reply
-	Norm string   // normalised reply (compared with the solo run)
-	Raw  string   // everything the reply carries, decoded (marker scan)
-	IDs  []string // message IDs found
+	Location string   // Location header of the reply
+	Norm     string   // normalised reply (compared with the solo run)
+	Raw      string   // everything the reply carries, decoded (marker scan)
+	IDs      []string // message IDs found
 }
 
 func c15Observe(rep *world.Reply) c15Obs {
@@ -468,7 +482,7 @@ func runC15(ctx Ctx) int {
 		}
 	}
 	run := ev.NewRun("C15")
-	run.Rule = "stateless exploration under a cooperative scheduler: every interleaving, within the preemption bound, of 2-3 real requests against ONE provider (171 pairs over 18 request bodies incl. every body with itself, 3 triples, 33 two-tenant pairs under three other provider configurations); scheduling points before EVERY STATEMENT of every repository function (and at every function / function-literal entry, every storage call, every sync-shim operation); a state is a schedule (choice sequence); oracle: each reply (IDs, signature bytes masked) equals the reply the same request gets alone on a fresh provider, a request sent on to the login UI was persisted by itself exactly once and is sent to the id returned for it, no reply or storage call carries another session's marker, all message IDs of all threads and executions are distinct NCNames, no deadlock; history companion: every sequence of <= 3 (quick: 2) requests on one provider, under each of 4 provider configurations (default endpoints, fixed metadata URL, custom endpoint paths below an issuer path, fixed SSO / attribute URLs), gives each the solo reply and never repeats a message ID; the two-tenant pairs are also explored under the three non-default configurations; b1 ; one failing storage operation (8 operations) ; b2 gives b2 the reply it gets on a fresh provider with the same failure; race companion: the same bodies free-running in a -race build"
+	run.Rule = "stateless exploration under a cooperative scheduler: every interleaving, within the preemption bound, of 2-3 real requests against ONE provider (190 pairs over 19 request bodies incl. every body with itself, 3 triples, 33 two-tenant pairs under three other provider configurations); scheduling points before EVERY STATEMENT of every repository function (and at every function / function-literal entry, every storage call, every sync-shim operation); a state is a schedule (choice sequence); oracle: each reply (IDs, signature bytes masked) equals the reply the same request gets alone on a fresh provider, a request sent on to the login UI was persisted by itself exactly once and is sent to the id returned for it, no reply or storage call carries another session's marker, all message IDs of all threads and executions are distinct NCNames, no deadlock; history companion: every sequence of <= 3 (quick: 2) requests on one provider, under each of 4 provider configurations (default endpoints, fixed metadata URL, custom endpoint paths below an issuer path, fixed SSO / attribute URLs), gives each the solo reply and never repeats a message ID; the two-tenant pairs are also explored under the three non-default configurations; b1 ; one failing storage operation (8 operations) ; b2 gives b2 the reply it gets on a fresh provider with the same failure; race companion: the same bodies free-running in a -race build"
 	run.Assume = []string{"interleavings inside one statement, inside the Go runtime and inside third-party libraries are not explored by the scheduler; unsynchronised accesses there are the race companion's business (free-running, not exhaustive)", "preemption bound as reported; N is 2-3 threads"}
 	if ctx.Replay != "" {
 		var rp c15Replay
